@@ -13,7 +13,7 @@ VARIABLE x
 
 ValTokens(ty) == CASE ty \in {"bi", "bos"} -> {0, 1} [] ty = "dbi" -> {0, 1, 2, 3}
                    [] ty \in {"ctr", "fctr"} -> CounterTokens [] OTHER -> AnalogTokens
-FlagTokens(ty) == CASE ty \in {"bi", "bos", "dbi"} -> {1, 0, 3, 33, 16} [] ty \in {"ctr", "fctr"} -> {1, 0, 65, 33}
+FlagTokens(ty) == CASE ty \in {"bi", "bos"} -> {1, 0, 3, 33, 16, 129} [] ty = "dbi" -> {1, 0, 3, 33, 16, 129, 65} [] ty \in {"ctr", "fctr"} -> {1, 0, 65, 33}
                     [] OTHER -> {1, 0, 3, 33, 65}
 TimeTokens == <<"t1000000", "t0", "tmax", "t1065536">>
 
